@@ -1,0 +1,21 @@
+//go:build verif
+// +build verif
+
+package bal_gslb
+
+import (
+	"github.com/bfenetworks/bfe/bfe_balance/bal_slb"
+)
+
+// VerifC01SubBalancer exposes the BalanceRR of the named sub-cluster to the out-of-tree
+// verification harness of property C01 (build tag verif). Add-only.
+func (bal *BalanceGslb) VerifC01SubBalancer(name string) *bal_slb.BalanceRR {
+	bal.lock.Lock()
+	defer bal.lock.Unlock()
+	for _, sub := range bal.subClusters {
+		if sub.Name == name {
+			return sub.backends
+		}
+	}
+	return nil
+}
